@@ -2419,6 +2419,10 @@ fn run_waker_panic(prop: &'static str) {
                     for w in &ws { w.wake_by_ref(); }
                     let _ = std::panic::catch_unwind(std::panic::AssertUnwindSafe(|| { let _ = coll.poll(&mut cx); }));
                     for s in &sts { s.waker.borrow_mut().take(); }
+                    if prop == "C03" && LIVE_BIG.load(Ordering::Relaxed) - live0 < 1 {
+                        QUARANTINE.store(false, Ordering::Relaxed);
+                        report(&Fail { prop, scenario, history: vec!["push; poll (the last child panics, caught); take the siblings' wakers".into(), "wake them; poll (caught)".into()], what: "the shared waker allocation has been released although the collection is still alive".into() });
+                    }
                     let _ = std::panic::catch_unwind(std::panic::AssertUnwindSafe(move || drop(coll)));
                     for w in &ws { w.wake_by_ref(); }
                     for w in ws.drain(..) { w.wake(); }
